@@ -22,13 +22,17 @@
  * case:   c8 <route> <n> then per MX (= one connection attempt)
  *           <flags> <tlsa> <hs> <verify> <npre> <npost> <ntls> <pre segments> <post segments> <tls segments>
  *         <route>  bit0: the route has its own client certificate (smtproutes.d clientcert=: expect_tls)
- *         <flags>  bit0 the MX has a name, bit1 control/tlshosts/<name>.pem exists, bit2 it loads
+ *         <flags>  bit0 the MX has a name, bit1 control/tlshosts/<name>.pem exists, bit2 it loads,
+ *                  bit3 the server stays silent when its clear text is used up (poll() times out instead of read() = 0),
+ *                  bit4 dup2(socketd, 0) fails   (bits 3 and 4 are only used by the qrconn engine of C04)
  *         <tlsa>   pairs (cert_usage, result of SSL_dane_tlsa_add + 1)
  *         <hs>     0 handshake succeeds, 1 ETIMEDOUT, 2 ECONNRESET, 3 EPIPE, 4 EPROTO, 5 EIO
  *         <verify> value of SSL_get_verify_result (0 = X509_V_OK)
  *         pre = clear-text segments up to the handshake (what is left when the handshake starts is eaten by it),
  *         post = clear-text segments after a failed handshake, tls = results of SSL_read
  * result: a list of events, see Model/TlsSwitch.v
+ * With c9 instead of c8 (engine qrconn, property C04) the results of net_read() are left out of the event list and a
+ * last token WF1/WF0 says whether the status stream is empty or a sequence of records "<letter of rshKZD>...\n\0".
  */
 #include "hcommon.h"
 #include <unistd.h>
@@ -214,11 +218,13 @@ static const char *ename(int e)
 	}
 }
 
+static int h_proj;			/* c9: net_read() results are not part of the observation */
 static int h_net_read(const int fatal)
 {
 	int tlsmode = ssl != NULL;
 	int r = (net_read)(fatal);
 	int e = errno;
+	if (h_proj) return r;
 	size_t left = linenlen + (tlsmode ? (c_cur >= 0 ? seg_left(&cc[c_cur].tls) : 0) : (c_clear ? seg_left(c_clear) : 0));
 	if (r == 0) {
 		ev_bytes(tlsmode ? "Rt" : "Rc", linein.s, linein.len);
@@ -255,7 +261,12 @@ static void *h_mmap(void *a, size_t l, int prot, int fl, int fd, off_t off)
 	return (void *)"a\r\n";
 }
 static int h_munmap(void *a, size_t l) { (void)a; (void)l; return 0; }
-static int h_dup2(int a, int b) { (void)a; return b; }
+static int h_dup2(int a, int b)
+{
+	(void)a;
+	if (c_cur >= 0 && (cc[c_cur].flags & 0x10)) { errno = EMFILE; return -1; }
+	return b;
+}
 static int h_openat(int d, const char *fn, int fl) { (void)d; (void)fn; (void)fl; errno = ENOENT; return -1; }
 static int h_stat(const char *fn, struct stat *st)
 {
@@ -283,6 +294,8 @@ static int h_poll(struct pollfd *p, nfds_t n, int t)
 	(void)n;
 	if (p->events & POLLOUT) { p->revents = POLLOUT; return 1; }
 	(void)t;
+	/* a silent server: nothing more comes, and the connection stays open */
+	if (c_cur >= 0 && (cc[c_cur].flags & 8) && c_clear && seg_left(c_clear) == 0) return 0;
 	p->revents = POLLIN;
 	return 1;
 }
@@ -366,14 +379,20 @@ int send_envelope(const unsigned int recodeflag, const char *sender, int rcptcou
 {
 	(void)recodeflag; (void)sender; (void)rcptcount; (void)rcpts;
 	out_str(ssl ? " Mt" : " Mc"); out_int(smtpext);
+	if (h_proj) {		/* how many reports exist when the envelope phase starts */
+		int nrep = 0;
+		for (size_t i = 0; i < slen; i++) nrep += sbuf[i] == 0;
+		out_str(":"); out_int(nrep);
+	}
 	netwrite("MAIL FROM:<>\r\n");
 	return 1;
 }
 
 static void run_case(int nf, struct field *f)
 {
-	if (nf < 3 || f[0].len != 1 || f[0].p[0] != 0xc8 || f[1].len != 1 || f[2].len != 1 || f[2].p[0] > MAXCONN || f[2].p[0] < 1) { out_str("BADCASE"); return; }
+	if (nf < 3 || f[0].len != 1 || (f[0].p[0] != 0xc8 && f[0].p[0] != 0xc9) || f[1].len != 1 || f[2].len != 1 || f[2].p[0] > MAXCONN || f[2].p[0] < 1) { out_str("BADCASE"); return; }
 	c_n = f[2].p[0];
+	h_proj = f[0].p[0] == 0xc9;
 	int at = 3;
 	for (int i = 0; i < c_n; i++) {
 		if (nf < at + 7) { out_str("BADCASE"); return; }
@@ -420,6 +439,16 @@ static void run_case(int nf, struct field *f)
 		ev_bytes("S", sbuf + i, e - i);
 		while (e < slen && sbuf[e] != 0) e++;
 		i = e + 1;
+	}
+	if (h_proj) {
+		int wf = slen == 0 || sbuf[slen - 1] == 0;
+		for (size_t a = 0; wf && a < slen; ) {
+			size_t e = a;
+			while (sbuf[e] != 0) e++;
+			if (e < a + 2 || !strchr("rshKZD", sbuf[a]) || sbuf[e - 1] != '\n') wf = 0;
+			a = e + 1;
+		}
+		out_str(wf ? " WF1" : " WF0");
 	}
 }
 
